@@ -33,6 +33,9 @@ type Req struct {
 	// Plain: the request goes to the plaintext (http) endpoint of the host name: another endpoint
 	// than the https one, which has to issue its own challenge before it is sent a password
 	Plain bool `json:"plain,omitempty"`
+	// HostHeader > 0: the request's Host field (the Host header) names host HostHeader-1 although the
+	// URL - where the request goes - names Host: what is sent must depend on where it goes
+	HostHeader int `json:"host_header,omitempty"`
 }
 
 type Script struct {
@@ -107,6 +110,9 @@ func run(s Script, v *vt.V) {
 				scheme = "http://"
 			}
 			req, _ := http.NewRequestWithContext(ctx, rq.Method, scheme+h.Name+path, nil)
+			if rq.HostHeader > 0 && rq.HostHeader <= len(hosts) {
+				req.Host = hosts[rq.HostHeader-1].Name
+			}
 			var rewinds []*trackedBody
 			if body != nil {
 				req.Body = body
@@ -339,19 +345,20 @@ func genScript(t *rapid.T) Script {
 			h.Accept = "never"
 		}
 		h.ErrContentType = rapid.SampledFrom([]string{"", "", "application/json", "text/plain; charset=utf-8", "text/html"}).Draw(t, "errContentType")
-		h.Retry401 = rapid.SampledFrom([]string{"", "", "", "nohdr", "negotiate", "malformed"}).Draw(t, "retry401")
+		h.Retry401 = rapid.SampledFrom([]string{"", "", "", "nohdr", "negotiate", "malformed", "basic"}).Draw(t, "retry401")
 		s.Hosts = append(s.Hosts, h)
 	}
 	n := rapid.IntRange(1, 8).Draw(t, "nreqs")
 	for i := 0; i < n; i++ {
 		s.Reqs = append(s.Reqs, Req{
-			Host:    rapid.IntRange(0, nh-1).Draw(t, "host"),
-			Method:  rapid.SampledFrom([]string{"GET", "PUT", "POST"}).Draw(t, "method"),
-			Repo:    rapid.SampledFrom([]string{"foo", "bar"}).Draw(t, "repo"),
-			Body:    rapid.SampledFrom([]string{"", "", "plain", "rewindable"}).Draw(t, "body"),
-			Desired: rapid.SampledFrom([]string{"", "", "repository:bar:pull", "repository:bar:push"}).Draw(t, "desired"),
-			SleepMs: rapid.SampledFrom([]int{0, 0, 1500, 61000}).Draw(t, "sleep"),
-			Plain:   rapid.IntRange(0, 5).Draw(t, "plain") == 0,
+			Host:       rapid.IntRange(0, nh-1).Draw(t, "host"),
+			Method:     rapid.SampledFrom([]string{"GET", "PUT", "POST"}).Draw(t, "method"),
+			Repo:       rapid.SampledFrom([]string{"foo", "bar"}).Draw(t, "repo"),
+			Body:       rapid.SampledFrom([]string{"", "", "plain", "rewindable"}).Draw(t, "body"),
+			Desired:    rapid.SampledFrom([]string{"", "", "repository:bar:pull", "repository:bar:push"}).Draw(t, "desired"),
+			SleepMs:    rapid.SampledFrom([]int{0, 0, 1500, 61000}).Draw(t, "sleep"),
+			Plain:      rapid.IntRange(0, 5).Draw(t, "plain") == 0,
+			HostHeader: rapid.SampledFrom([]int{0, 0, 0, 0, 1, 2}).Draw(t, "hostHeader"),
 		})
 	}
 	return s
@@ -360,7 +367,7 @@ func genScript(t *rapid.T) Script {
 var prop = &vt.Prop[Script]{
 	ID:   "C11",
 	Name: "CredentialConfinement",
-	Rule: "2-3 registry hosts (two of them differing only in port) with distinct unique secrets and credential kinds {none, basic, refresh, refresh+basic, static token, failing config lookup}; token realms on separate hosts or on another registry's host; challenges {Bearer exact / no scope / unrelated scope, Basic, both, raw headers of every RFC 7235 shape: case variants, token and quoted values with escapes, missing '=', unterminated quotes, empty, 8-bit, unknown schemes (Negotiate, NTLM, Digest, Custom), several challenges in one line, realm naming another registry, malformed realm URL, very long scope}; token servers that fail with statuses 300-599 or redirect (301/302/307/308) to a host nobody named or to another port of the realm's host or to the same host over plaintext http, return malformed / empty JSON, omit the token, lack the POST endpoint, refuse over-wide scopes; registries that answer 401 to every token, with the usual challenge or - when a token was presented - with no, an unsupported or an unparsable Www-Authenticate header; 1-8 requests (some to the plaintext http endpoint of a host name, which is a registry of its own as far as challenges go) with no body, a plain body and a rewindable body; in a synctest bubble over the in-memory world; oracle: every secret is searched (also base64- and URL-decoded) in every outgoing request: a password only to a realm host its own registry named, or as Basic to its own registry after that registry issued a Basic challenge; a refresh token only to such realms; access tokens only to their own registry; at most 2 registry requests (and 8 token requests) per call; a 401 answered to a token minted in this call (on the retry, or on a first attempt made with a token acquired up front) reaches the caller as 403 DENIED (a JSON error document declared as application/json, whatever content type the registry's 401 had); the caller's request (method, URL, headers, ContentLength, Body, GetBody) is unchanged; every body (incl. those from GetBody) is closed on every path; a failing config lookup sends nothing; no panic; non-trivial = a challenge was seen and a credential was sent; distinct = the script",
+	Rule: "2-3 registry hosts (two of them differing only in port) with distinct unique secrets and credential kinds {none, basic, refresh, refresh+basic, static token, failing config lookup}; token realms on separate hosts or on another registry's host; challenges {Bearer exact / no scope / unrelated scope, Basic, both, raw headers of every RFC 7235 shape: case variants, token and quoted values with escapes, missing '=', unterminated quotes, empty, 8-bit, unknown schemes (Negotiate, NTLM, Digest, Custom), several challenges in one line, realm naming another registry, malformed realm URL, very long scope}; token servers that fail with statuses 300-599 or redirect (301/302/307/308) to a host nobody named or to another port of the realm's host or to the same host over plaintext http, return malformed / empty JSON, omit the token, lack the POST endpoint, refuse over-wide scopes; registries that answer 401 to every token, with the usual challenge or - when a token was presented - with no, an unsupported or an unparsable Www-Authenticate header or with a Basic-only challenge; 1-8 requests (some to the plaintext http endpoint of a host name, which is a registry of its own as far as challenges go; some with a Host header naming another of the hosts) with no body, a plain body and a rewindable body; in a synctest bubble over the in-memory world; oracle: every secret is searched (also base64- and URL-decoded) in every outgoing request: a password only to a realm host its own registry named, or as Basic to its own registry after that registry issued a Basic challenge; a refresh token only to such realms; access tokens only to their own registry; at most 2 registry requests (and 8 token requests) per call; a 401 answered to a token minted in this call (on the retry, or on a first attempt made with a token acquired up front) reaches the caller as 403 DENIED (a JSON error document declared as application/json, whatever content type the registry's 401 had); the caller's request (method, URL, headers, ContentLength, Body, GetBody) is unchanged; every body (incl. those from GetBody) is closed on every path; a failing config lookup sends nothing; no panic; non-trivial = a challenge was seen and a credential was sent; distinct = the script",
 	Gen:  genScript,
 	Run:  run,
 }
